@@ -156,9 +156,9 @@ Proof.
   - destruct f; destruct g; simpl; try reflexivity. rewrite IH. reflexivity.
 Qed.
 
-Lemma rrel_fut_finish : forall st f s, (s = FRes \/ exists m, s = FCanc m) -> rrel st (fst (fut_finish st f s)).
+Lemma rrel_fut_finish : forall st f s, rrel st (fst (fut_finish st f s)).
 Proof.
-  intros st f s Hs. unfold fut_finish. destruct (f_st (get_fut st f)) eqn:Ef; cbn [fst]; try apply rrel_refl.
+  intros st f s. unfold fut_finish. destruct (f_st (get_fut st f)) eqn:Ef; cbn [fst]; try apply rrel_refl.
   set (x := get_fut st f) in *.
   assert (L : f < length (futs st)).
   { destruct (lt_dec f (length (futs st))) as [L|L]; [exact L|]. unfold x, get_fut in Ef.
@@ -192,7 +192,7 @@ Proof.
   set (st1 := set_t_cnt st (S (t_cnt st))).
   assert (Q1 : rrel st st1) by (unfold st1; r5).
   destruct (t_waiter st1) as [f|].
-  - unfold fut_cancel. pose proof (rrel_fut_finish st1 f (FCanc m) ltac:(right; eauto)) as Q2.
+  - unfold fut_cancel. pose proof (rrel_fut_finish st1 f (FCanc m)) as Q2.
     destruct (fut_finish st1 f (FCanc m)) as [st2 ok]. cbn [fst] in Q2.
     destruct ok; [exact (rrel_trans _ _ _ Q1 Q2)|].
     eapply rrel_trans; [exact (rrel_trans _ _ _ Q1 Q2)|]. apply same5_rrel. constructor; try reflexivity; intros; reflexivity.
@@ -498,6 +498,34 @@ Proof.
         eapply sfw_of_krel_loop; [exact (krel_trans _ _ _ K1 K2)|exact W]. }
       eapply rinv_do_yield; [exact W2|exact R2|rewrite Emd2; exact Hm|intros i E; discriminate|].
       right. exists f. split; [reflexivity|]. rewrite Ef2, El. lia.
+  - destruct (new_fut (emit st (EvStart id (time st)))) as [st1 f] eqn:E1.
+    assert (Q1 : rrel st st1) by (unfold new_fut in E1; inversion E1; constructor; auto;
+      [cbn [ready futs set_futs emit set_trace]; rewrite cw_app; simpl; unfold nwake; simpl; lia
+      |intros h Hh; left; exists h; auto
+      |intros g Hg; unfold get_fut in *; cbn [futs set_futs emit set_trace] in Hg;
+       destruct (lt_dec g (length (futs st))) as [L|L];
+       [rewrite app_nth1 in Hg by exact L; exact Hg
+       |rewrite app_nth2 in Hg by lia; destruct (g - length (futs st)) as [|[|n]]; simpl in Hg; destruct Hg]
+      |intros g m Hg; unfold get_fut in *; cbn [futs set_futs emit set_trace];
+       destruct (lt_dec g (length (futs st))) as [L|L];
+       [rewrite app_nth1 by exact L; eauto|rewrite nth_overflow in Hg by lia; discriminate]]).
+    assert (Ef1 : f = length (futs st) /\ length (futs st1) = S (length (futs st)) /\ t_must st1 = t_must st).
+    { unfold new_fut in E1. inversion E1; subst. cbn [futs set_futs emit set_trace]. rewrite app_length. simpl.
+      repeat split; lia. }
+    destruct Ef1 as (Ef & El & Em1).
+    pose proof (rrel_call_at st1 (time st1 + d) (HSetExc f) eq_refl) as Q2.
+    destruct (call_at st1 (time st1 + d) (HSetExc f)) as [st2 h] eqn:E2. cbn [fst] in Q2.
+    assert (Em2 : t_must st2 = t_must st1 /\ futs st2 = futs st1 /\ frames st2 = frames st /\ md st2 = md st).
+    { unfold call_at in E2. inversion E2; subst. unfold new_fut in E1. inversion E1; subst. repeat split. }
+    destruct Em2 as (Em2 & Ef2 & Efr2 & Emd2).
+    pose proof (rrel_trans _ _ _ Q1 Q2) as Q.
+    assert (R2 : rinv st2) by (eapply (rinv_run_op st st2 _ Q R Hm); try reflexivity; congruence).
+    assert (W2 : sfw st2).
+    { pose proof (krel_call_at st1 (time st1 + d) (HSetExc f) eq_refl) as K2. rewrite E2 in K2. cbn [fst] in K2.
+      assert (K1 : krel st st1) by (unfold new_fut in E1; inversion E1; k3).
+      eapply sfw_of_krel_loop; [exact (krel_trans _ _ _ K1 K2)|exact W]. }
+    eapply rinv_do_yield; [exact W2|exact R2|rewrite Emd2; exact Hm|intros i E; discriminate|].
+    right. exists f. split; [reflexivity|]. rewrite Ef2, El. lia.
   - eapply rinv_do_yield; [apply WK; reflexivity|apply Keep; reflexivity|exact Hm|intros i E; discriminate|left; reflexivity].
   - pose proof (rrel_scope_enter st pre (match delay with Some d => Some (time st + d) | None => None end)) as Q.
     pose proof (must_scope_enter_cur st pre (match delay with Some d => Some (time st + d) | None => None end) Cu) as Mu.
@@ -673,9 +701,10 @@ Proof.
   - unfold run_cb. destruct c as [|outer|inner].
     + apply rinv_task_step; try assumption. apply Z1. unfold is_res. rewrite Ek. reflexivity.
     + destruct (f_st (get_fut st1 outer)); try exact R1;
-        (destruct (f_st (get_fut st1 f)); apply L; apply rrel_fut_finish; first [left; reflexivity|right; eauto]).
+        (destruct (f_st (get_fut st1 f)); apply L; apply rrel_fut_finish).
     + destruct (fut_done st1 inner); [exact R1|]. apply L. apply rrel_remove_cb_inner.
-  - destruct (f_st (get_fut st1 f)); try exact R1; (apply L; apply rrel_fut_finish; left; reflexivity).
+  - destruct (f_st (get_fut st1 f)); try exact R1; (apply L; apply rrel_fut_finish).
+  - apply L. apply rrel_fut_finish.
   - apply L. apply rrel_scope_cancel.
   - apply L. apply rrel_deliver.
   - destruct (task_done st1); [exact R1|]. apply L. eapply rrel_trans; [|apply rrel_task_cancel].
@@ -863,9 +892,10 @@ Proof.
         destruct D as [D|[g [m [Dw Df]]]]; [left; exact D|].
         right. assert (g = f) by congruence. subst g. change (get_fut st1 f) with (get_fut st f). rewrite Df. eauto.
       * destruct (f_st (get_fut st1 outer)); try (left; split; [exact Hm1|exact D1]);
-          (destruct (f_st (get_fut st1 f)); apply L; apply rrel_fut_finish; first [left; reflexivity|right; eauto]).
+          (destruct (f_st (get_fut st1 f)); apply L; apply rrel_fut_finish).
       * destruct (fut_done st1 inner); [left; split; [exact Hm1|exact D1]|]. apply L. apply rrel_remove_cb_inner.
-    + destruct (f_st (get_fut st1 f)); try (left; split; [exact Hm1|exact D1]); (apply L; apply rrel_fut_finish; left; reflexivity).
+    + destruct (f_st (get_fut st1 f)); try (left; split; [exact Hm1|exact D1]); (apply L; apply rrel_fut_finish).
+    + apply L. apply rrel_fut_finish.
     + apply L. apply rrel_scope_cancel.
     + apply L. apply rrel_deliver.
     + destruct (task_done st1); [left; split; [exact Hm1|exact D1]|]. apply L. eapply rrel_trans; [|apply rrel_task_cancel].
